@@ -160,7 +160,7 @@ func runVerify(o *runOpts) (*RunOutput, error) {
 		}
 		f := ld.funcs[k]
 		c := cs.Funcs[k]
-		if c != nil && (c.Trusted || c.Inline) {
+		if c != nil && (c.TrustedAll || c.Inline) {
 			continue
 		}
 		out.Functions = append(out.Functions, k)
